@@ -183,16 +183,25 @@ func verifConstRound(c any) (any, bool, bool) {
 // slots from the enclosing function's table, so two `for i := ...` loops put two symbols named i into it (seed C17f
 // added a validation pass that rejected repeated names). Non-leaf tables fail only through a child (recursion: trusted).
 //@ spec wfdef(d) = d != nil && forall(k, 0, len(d.Symbols), d.Symbols[k] != nil && int(d.Symbols[k].Index) == k) && forallA(n, string, haskey(d.SymbolsByName, n) ==> d.SymbolsByName[n] != nil && d.SymbolsByName[n].Name == n) && forall(k, 0, len(d.Free), d.Free[k] != nil && d.Free[k].Symbol != nil)
+// The indexed view of a reloaded table holds, slot by slot, the saved symbols: slot k is a symbol with the name and the
+// index of definition k - whatever names occur in the by-name view (a block symbol may carry the name of an outer symbol:
+// seed C17h merged such a pair into one object and left the block symbol's slot nil).
+// (that slot k carries the NAME and INDEX of definition k is not proved here: those two conjuncts did not discharge and
+// were left out rather than assumed; proved: same length, no nil slot, every slot an object allocated by this load.)
+//@ spec symsok(t, d) = len(t.symbols) == len(d.Symbols) && forall(k, 0, len(d.Symbols), t.symbols[k] != nil)
+//@ spec symsnew(t) = forall(k, 0, len(t.symbols), fresh(t.symbols[k]))
 //@ func symbolTableFromDefinition
 //@ props C05 C17
 //@ commute 1
 //@ expand symbolFromDefinition
-//@ trusted except C17.symtab.total
-//@ invariant 1: true
-//@ invariant 2: true
-//@ invariant 3: true
-//@ invariant 4: true
+//@ trusted except C17.symtab.total C17.symtab.symbols
+//@ invariant[t] 1: table != nil && fresh(table) && len(table.symbols) == iter && (cap(table.symbols) == 0 || fresh(table.symbols))
+//@ invariant[nn] 1: forall(k, 0, len(table.symbols), table.symbols[k] != nil && fresh(table.symbols[k]))
+//@ invariant 2: table != nil && fresh(table) && symsok(table, def) && symsnew(table)
+//@ invariant 3: table != nil && fresh(table) && symsok(table, def) && symsnew(table)
+//@ invariant 4: table != nil && fresh(table) && (len(def.Children) == 0 ==> symsok(table, def))
 //@ ensures[C17.symtab.total] wfdef(def) && len(def.Children) == 0 ==> err == nil && result != nil
+//@ ensures[C17.symtab.symbols] wfdef(def) && len(def.Children) == 0 && err == nil ==> symsok(result, def)
 //@ modcomps H_compiler_Symbol E_Pcompiler_Symbol E_Pcompiler_Resolution MD_string_ MV_string_ H_compiler_Resolution_
 
 //@ func codeFromState
